@@ -757,7 +757,7 @@ func runC31Stress(rec *kit.Recorder, c c31Case) error {
 
 func TestVerif_C31(t *testing.T) {
 	rec := kit.Open(t, "C31",
-		"rapid-generated schedules: 2-12 operations (With over 1-4 repository names, Global with probability 0-50%) and a step list (start next operation / let the k-th running body return), executed with harness-owned interleaving (bodies block on harness channels; the harness proceeds only at quiescent points taken from a stop-the-world goroutine dump); a case = one schedule; non-trivial = some With was skipped and some operation had to wait in the mutex; distinct by hash of the schedule. 12% of the cases are free-running stress runs (8-64 operations on 2-8 goroutines), never counted as non-trivial. 5% of the cases are call-site cases: 2-8 operations of which at least one is a global operation run through the Server's own call site (Server.doMerge, Server.vacuum, Server.DeleteAllData; cleanup's call site inside Server.Run is not reachable) next to With/Global on the same Server.muIndexDir, same kind of step list; the index directory holds 0-6 mergeable simple shards, 0-2 shards too recent to merge, 0-2 compound shards (repositories of tenants 1/2, tombstones on 0-2 members), 0-2 unreadable small compound-* files, with merge target size needing 1/2/3/4/unreachably many shards, minSizeBytes 0 / between / above all, tenant 1-3 for data deletion, and a pattern of failing commands; every zoekt-merge-index command the call sites run (merge of shards, merge of one compound shard to drop tombstones, explode) is a stand-in first in PATH that reports its start and end and is held until the harness lets it go; the time between a command's start and end counts as a critical section of a global operation in the same occupancy table as the With/Global bodies; non-trivial (call-site case) = some operation had to wait in the mutex while a command was running",
+		"rapid-generated schedules: 2-12 operations (With over 1-4 repository names, Global with probability 0-50%) and a step list (start next operation / let the k-th running body return), executed with harness-owned interleaving (bodies block on harness channels; the harness proceeds only at quiescent points taken from a stop-the-world goroutine dump); a case = one schedule; non-trivial = some With was skipped and some operation had to wait in the mutex; distinct by hash of the schedule. 12% of the cases are free-running stress runs (8-64 operations on 2-8 goroutines), never counted as non-trivial. 2% of the cases (VERIF_C31_SITEPCT) are call-site cases: 2-6 operations of which at least one is a global operation run through the Server's own call site (Server.doMerge, Server.vacuum, Server.DeleteAllData; cleanup's call site inside Server.Run is not reachable) next to With/Global on the same Server.muIndexDir, same kind of step list; the index directory holds 0-6 mergeable simple shards, 0-2 shards too recent to merge, 0-2 compound shards (repositories of tenants 1/2, tombstones on 0-2 members), 0-2 unreadable small compound-* files, with merge target size needing 1/2/3/4/unreachably many shards, minSizeBytes 0 / between / above all, tenant 1-3 for data deletion, and a pattern of failing commands; every zoekt-merge-index command the call sites run (merge of shards, merge of one compound shard to drop tombstones, explode) is a stand-in first in PATH that reports its start and end and is held until the harness lets it go; the time between a command's start and end counts as a critical section of a global operation in the same occupancy table as the With/Global bodies; non-trivial (call-site case) = some operation had to wait in the mutex while a command was running",
 		"quiescence is observed through runtime.Stack wait reasons (sync.RWMutex.RLock/Lock, sync.Mutex.Lock); it only decides when the harness proceeds, never the verdict",
 		"when several same-name operations are released together by a finishing Global, which of them runs and which is skipped is the runtime's choice; the oracle is symmetric in that choice",
 		"a skipped With must overlap (logical clock around the calls) a running With for the same name",
